@@ -99,6 +99,7 @@ func (c *chanv) sendT(v value) {
 		sch.block("send on nil channel", func() bool { return false })
 		panic(pathAbort{"send on nil channel blocks forever", false})
 	}
+	sch.preemptPoint("channel send")
 	if c.trySend(v) {
 		return
 	}
@@ -116,6 +117,7 @@ func (c *chanv) recvT(elem types.Type) (value, bool) {
 		sch.block("receive from nil channel", func() bool { return false })
 		panic(pathAbort{"receive from nil channel blocks forever", false})
 	}
+	sch.preemptPoint("channel receive")
 	if v, ok, done := c.tryRecv(elem); done {
 		return v, ok
 	}
@@ -140,6 +142,7 @@ type selCase struct {
 // selectT runs a select: the index of the case that fired (-1: default), and for a receive case
 // the value and ok.
 func selectT(cases []selCase, blocking bool) (chosen int, recv value, recvOk bool) {
+	sch.preemptPoint("select")
 	for {
 		// first ready case in source order
 		for i, cs := range cases {
